@@ -10,3 +10,11 @@ import Ark.Props.C03
 #print axioms Ark.Props.C03.entityAt_eq_visit
 #print axioms Ark.Props.C03.visits_nodup
 #print axioms Ark.Props.C03.drain_closes_and_unlocks
+#print axioms Ark.Props.C03.words_mask256_contains
+#print axioms Ark.Props.C03.words_mask256_containsAny
+#print axioms Ark.Props.C03.words_mask256_not
+#print axioms Ark.Props.C03.words_mask256_get
+#print axioms Ark.Props.C03.words_mask256_ofIDs
+#print axioms Ark.Props.C03.words_mask64_contains
+#print axioms Ark.Props.C03.words_mask64_containsAny
+#print axioms Ark.Props.C03.words_mask64_not
